@@ -365,10 +365,31 @@ def prepare_case(gc: GCase, shard: dict, rnd: random.Random, acc: Acc) -> bool:
     return True
 
 
+def pipeline_configs(seed: int, label: str, n: int):
+    """Seeded optimizer configurations drawn from DEFAULT_OPTIMIZER_PASSES (C02)."""
+    from pest import DEFAULT_OPTIMIZER_PASSES
+
+    rnd = random.Random(seed_int(seed, "pipe", label))
+    k = len(DEFAULT_OPTIMIZER_PASSES)
+    cfgs: list[tuple[int, ...]] = []
+    singles = list(range(k))
+    rnd.shuffle(singles)
+    for i in range(n):
+        c = rnd.random()
+        if i < 2 or c < 0.3:
+            cfgs.append((singles[i % k],))
+        elif c < 0.55:
+            cfgs.append(tuple(sorted(rnd.sample(range(k), rnd.randint(2, k)))))  # subset, default order
+        elif c < 0.8:
+            cfgs.append(tuple(rnd.sample(range(k), rnd.randint(2, k))))  # permutation of a subset
+        else:
+            cfgs.append(tuple(rnd.randrange(k) for _ in range(rnd.randint(2, 7))))  # with repetitions
+    return cfgs
+
+
 def worker(shard: dict) -> dict:  # noqa: PLR0912, PLR0915
     acc = Acc()
     rep = Reporter(acc)
-    prop = shard["prop"]
     judges = set(shard["judges"])
     monitor.install()
     monitor.CFG["t1"] = "t1" in judges
@@ -383,12 +404,13 @@ def worker(shard: dict) -> dict:  # noqa: PLR0912, PLR0915
         for f in gc.feats:
             acc.count("grammars_with." + f)
     sample_at = shard.get("sample_at", 0)
+    npipes = shard.get("pipelines", 0) if "c02" in judges else 0
 
     for phase in ("U", "O"):
         modes_of_phase = [m for m in shard["modes"] if (m in ("I", "GI")) == (phase == "U")]
-        if not modes_of_phase:
+        if not modes_of_phase and not (phase == "O" and npipes):
             continue
-        for gi, gc in enumerate(cases):
+        for gc in cases:
             md = Modes(gc.text)
             objs = {}
             for m in modes_of_phase:
@@ -407,18 +429,65 @@ def worker(shard: dict) -> dict:  # noqa: PLR0912, PLR0915
                 if m in ("GI", "GO"):
                     monitor.attach(o)
                 objs[m] = o
+            pipe_desc: dict[str, list[str]] = {}
+            if phase == "O" and npipes and "I" in gc.u_results.get("_built", {"I": 1}):
+                from pest import DEFAULT_OPTIMIZER_PASSES, Optimizer
+
+                for ci, cfg in enumerate(pipeline_configs(shard["seed"], gc.label, npipes)):
+                    key = f"P{ci}"
+                    opt = Optimizer([DEFAULT_OPTIMIZER_PASSES[i] for i in cfg])
+                    names = [DEFAULT_OPTIMIZER_PASSES[i].name for i in cfg]
+                    pipe_desc[key] = names
+                    pipe_desc["G" + key] = names
+                    try:
+                        from pest import Parser
+
+                        po = Parser.from_grammar(gc.text, optimizer=opt, debug=True)
+                    except Exception as e:  # noqa: BLE001
+                        acc.count(f"build_failed.pipeline.{type(e).__name__}")
+                        if md.parser("I") is not None:
+                            rep.violation("c02", ("pipeline-load", type(e).__name__), gc, "", "", 0, "+".join(names), "loads like optimizer=None does", f"{type(e).__name__}: {e}"[:300])
+                        continue
+                    acc.count("c02.pipelines_built")
+                    acc.count("c02.pipeline_kind." + ("single" if len(cfg) == 1 else "multi"))
+                    for line in opt.log:
+                        acc.count("c02.rewrites_fired." + line.split("(", 1)[0])
+                    md.objs[key] = po
+                    objs[key] = po
+                    if "GI" in shard["modes"] or "GO" in shard["modes"]:
+                        g = md.generated("G" + key, base=key)
+                        if g is None:
+                            err = md.errors["G" + key]
+                            rep.violation("c02", ("pipeline-generate", err[1]), gc, "", "", 0, "+".join(names), "generated module builds", list(err))
+                        else:
+                            monitor.attach(g)
+                            objs["G" + key] = g
+            if phase == "O" and "O" in objs and "c02" in judges:
+                # count what the default pipeline rewrote on this grammar (separate debug build, not used for parsing)
+                try:
+                    from pest import DEFAULT_OPTIMIZER_PASSES, Optimizer, Parser
+
+                    dbg = Optimizer(list(DEFAULT_OPTIMIZER_PASSES))
+                    Parser.from_grammar(gc.text, optimizer=dbg, debug=True)
+                    for line in dbg.log:
+                        acc.count("c02.default_rewrites_fired." + line.split("(", 1)[0])
+                except Exception:  # noqa: BLE001, S110
+                    pass
             if "c01" in judges:
                 for m in modes_of_phase:
                     if m in ("I", "O") and m in objs and ("G" + m) in objs:
                         again = objs[m].generate()
                         acc.count("c01.generate_twice")
+                        acc.count("c01.generated_bytes", len(again))
                         if again != md.sources["G" + m]:
                             rep.violation("c01", ("nondeterministic-generate", m), gc, "", "", 0, m, "byte-identical source", "second generate() differs")
             known_names = None
             silent_rules = {n for n, (mm, _x) in gc.rules.items() if mm == "_"}
             nonsilent = {n for n, (mm, _x) in gc.rules.items() if mm != "_"} | {"EOI"}
             tags = {n[1] for _nm, (_mm, x) in gc.rules.items() for n in G.walk(x) if n[0] == "tag"}
+            soi_free = not uses_soi(gc.rules)
             distinct_here = 0
+            c16_budget = shard.get("c16_inputs", 40)
             for (rule, inp, st), want in gc.refres.items():
                 if want is ABSTAIN:
                     continue
@@ -439,7 +508,7 @@ def worker(shard: dict) -> dict:  # noqa: PLR0912, PLR0915
                         res = ("exc", "MonitorViolation", mv.what)
                     results[m] = res
                     acc.count("parses")
-                    acc.count(f"outcome.{m}.{res[0]}")
+                    acc.count(f"outcome.{m if m in ('I', 'GI', 'O', 'GO') else ('GP' if m[0] == 'G' else 'P')}.{res[0]}")
                     raw = keep[0] if keep else None
                     # ---------- reference judge (C03 / C04 / C05)
                     if "ref" in judges:
@@ -462,21 +531,34 @@ def worker(shard: dict) -> dict:  # noqa: PLR0912, PLR0915
                         elif res[0] == "exc":
                             acc.count("abstain.impl_recursion_error")
                         else:
+                            acc.count("c07.outcome." + res[0])
                             res2 = run(o, rule, inp, st)
                             acc.count("c07.repeat_calls")
                             if res2 != res:
                                 rep.violation("c07", (m, "nondeterministic"), gc, rule, inp, st, m, brief(res), brief(res2))
-                        acc.maxi("c07.max_steps_ratio_x1000", 0)
+                            if not inp:
+                                acc.count("c07.empty_input_calls")
                     # ---------- C06 well-formedness
                     if "c06" in judges and res[0] == "ok":
                         acc.count("c06.trees_checked")
                         why = check_tree_invariants(raw, inp, st, nonsilent, tags, rule in silent_rules)
                         if why:
-                            rep.violation("c06", (m, why.split(" ")[0], why.split(" ")[1] if " " in why else ""), gc, rule, inp, st, m, "well-formed tree", why, {"tree": brief(res)})
+                            w = why.split(" ")
+                            rep.violation("c06", (m, w[0], w[1] if len(w) > 1 else ""), gc, rule, inp, st, m, "well-formed tree", why, {"tree": brief(res)})
                         else:
-                            npairs = sum(1 for _ in raw.flatten())
-                            acc.count("c06.pairs_checked", npairs)
-                            acc.maxi("c06.max_pairs_in_tree", npairs)
+                            flat = list(raw.flatten())
+                            acc.count("c06.pairs_checked", len(flat))
+                            acc.maxi("c06.max_pairs_in_tree", len(flat))
+                            if st:
+                                acc.count("c06.trees_with_start_pos")
+                            if any(p.tag for p in flat):
+                                acc.count("c06.trees_with_tags")
+                            if any(p.start == p.end for p in flat):
+                                acc.count("c06.trees_with_zero_width_pairs")
+                            if any(p.name in ("WHITESPACE", "COMMENT") for p in flat):
+                                acc.count("c06.trees_with_trivia_pairs")
+                            if any(p.name == "EOI" for p in flat):
+                                acc.count("c06.trees_with_EOI")
                     # ---------- C13 failures
                     if "c13" in judges and res[0] == "fail":
                         if known_names is None:
@@ -487,15 +569,47 @@ def worker(shard: dict) -> dict:  # noqa: PLR0912, PLR0915
                         p = res[1]
                         cls = "sentinel" if p == -1 else "at_start" if p == st else "at_end" if p == len(inp) else "interior"
                         acc.count("c13.position_class." + cls)
+                        if "\n" in inp:
+                            acc.count("c13.multi_line_inputs")
+                            if p > 0 and inp[p - 1 : p] == "\n":
+                                acc.count("c13.failure_right_after_newline")
                         why = check_failure(raw, inp, st, known_names)
                         if why:
-                            rep.violation("c13", (m, why.split(" ")[0], why.split(" ")[1] if " " in why else ""), gc, rule, inp, st, m, "valid failure record", why, {"result": brief(res)})
+                            w = why.split(" ")
+                            rep.violation("c13", (m, w[0], w[1] if len(w) > 1 else ""), gc, rule, inp, st, m, "valid failure record", why, {"result": brief(res)})
+                    # ---------- C16: start_pos = k == suffix parse shifted by k
+                    if "c16" in judges and st == 0 and soi_free and inp and c16_budget > 0 and res[0] != "exc":
+                        for k in range(len(inp) + 1):
+                            rk = run(o, rule, inp, k)
+                            rs = run(o, rule, inp[k:], 0)
+                            acc.count("c16.comparisons")
+                            acc.count("c16.k_class." + ("0" if k == 0 else "len" if k == len(inp) else "interior"))
+                            if rs[0] == "ok":
+                                exp = ("ok", shift_tree(rs[1], k))
+                            elif rs[0] == "fail":
+                                exp = ("fail", rs[1] + k if rs[1] >= 0 else rs[1]) + rs[2:]
+                                acc.count("c16.failing_parses")
+                            else:
+                                exp = rs
+                            if rk != exp and not (rk[0] == "exc" and rk[1] == "RecursionError"):
+                                rep.violation("c16", (m, f"{rk[0]}-vs-{exp[0]}"), gc, rule, inp, k, m, brief(exp), brief(rk), {"suffix_result": brief(rs)})
+                            if k:
+                                # characters before start_pos are never consulted
+                                other = "".join("q" if c != "q" else "r" for c in inp[:k]) + inp[k:]
+                                ro = run(o, rule, other, k)
+                                acc.count("c16.prefix_variations")
+                                if ro != rk:
+                                    rep.violation("c16", (m, "prefix-consulted"), gc, rule, inp, k, m, brief(rk), brief(ro), {"varied_text": other})
+                if "c16" in judges and st == 0 and inp:
+                    c16_budget -= 1
                 # ---------- C01: generated == interpreter on the same Parser
                 if "c01" in judges:
                     for a, b in (("I", "GI"), ("O", "GO")):
                         if a in results and b in results:
                             ra, rb = results[a], results[b]
                             acc.count("c01.comparisons")
+                            if st:
+                                acc.count("c01.comparisons_with_start_pos")
                             if ra[0] == "exc":
                                 acc.count("c01.abstain_interpreter_raised")
                                 continue
@@ -505,39 +619,50 @@ def worker(shard: dict) -> dict:  # noqa: PLR0912, PLR0915
                                 same = rb[0] == "fail" and rb[1] == ra[1]
                                 if same:
                                     acc.count("c01.failures_with_equal_furthest_pos")
-                            if not same:
+                            if not same and not (rb[0] == "exc" and rb[1] == "RecursionError"):
                                 kind = f"{ra[0]}-vs-{rb[0]}" + ("-pos" if ra[0] == rb[0] == "fail" else "")
                                 rep.violation("c01", (b, kind), gc, rule, inp, st, b, brief(ra), brief(rb))
                 # ---------- C02: remember unoptimized results / compare optimized ones
                 if "c02" in judges:
                     if phase == "U":
-                        gc.u_results[(rule, inp, st)] = {m: results[m] for m in results}
+                        gc.u_results[(rule, inp, st)] = dict(results)
                     else:
                         base = gc.u_results.get((rule, inp, st), {})
-                        for a, b in (("I", "O"), ("GI", "GO")):
-                            if a in base and b in results:
-                                ra, rb = base[a], results[b]
-                                acc.count("c02.comparisons")
-                                if ra[0] == "exc" or (rb[0] == "exc" and rb[1] == "RecursionError"):
-                                    acc.count("c02.abstain_exception")
-                                    continue
-                                same = (ra[0] == rb[0]) and (ra[0] != "ok" or ra[1] == rb[1])
-                                if not same:
-                                    rep.violation("c02", (b, f"{ra[0]}-vs-{rb[0]}"), gc, rule, inp, st, b, brief(ra), brief(rb))
+                        for b, rb in results.items():
+                            a = "GI" if b.startswith("G") else "I"
+                            if a not in base:
+                                continue
+                            ra = base[a]
+                            acc.count("c02.comparisons")
+                            if ra[0] == "exc" or (rb[0] == "exc" and rb[1] == "RecursionError"):
+                                acc.count("c02.abstain_exception")
+                                continue
+                            same = (ra[0] == rb[0]) and (ra[0] != "ok" or ra[1] == rb[1])
+                            if not same:
+                                desc = "+".join(pipe_desc[b]) if b in pipe_desc else "default"
+                                single = pipe_desc[b][0] if b in pipe_desc and len(pipe_desc[b]) == 1 else ("default" if b in ("O", "GO") else "multi")
+                                rep.violation("c02", ("G" if b.startswith("G") else "interp", single, f"{ra[0]}-vs-{rb[0]}"), gc, rule, inp, st, b, brief(ra), brief(rb), {"pipeline": desc})
                 if want is not None or inp:
                     distinct_here += 1
                 if acc.c["parses"] >= sample_at and len(acc.samples) < 3 and want is not None and want:
                     acc.sample({"grammar": gc.text, "rule": rule, "input": inp, "start": st, "reference": brief_ref(want), "observed": {m: brief(r) for m, r in results.items()}})
+            if "c01" in judges:
+                # lazily filled caches must not leak into the generated source
+                for m in modes_of_phase:
+                    if m in ("I", "O") and m in objs and ("G" + m) in objs:
+                        acc.count("c01.generate_after_parses")
+                        if objs[m].generate() != md.sources["G" + m]:
+                            rep.violation("c01", ("generate-changed-after-parses", m), gc, "", "", 0, m, "byte-identical source", "generate() after parsing differs")
             if phase == "U" or not [m for m in shard["modes"] if m in ("I", "GI")]:
                 acc.group_distinct(sha(gc.text)[:16], distinct_here)
-            for m, o in objs.items():
-                objs[m] = None
+            objs.clear()
         # between the phases nothing of phase O has been imported or run yet
     rep.flush()
     for k, v in monitor.STATS.items():
-        acc.c[k] += v if not k.endswith("max_depth") else 0
         if k.endswith("max_depth"):
             acc.maxi(k, v)
+        else:
+            acc.c[k] += v
     return acc.dump()
 
 
